@@ -350,7 +350,26 @@ func judgeNTF(tr *ntfTrace) (viol []vx.Found, images int) {
 				}
 			case e.Op == "write":
 				if in := dir[p]; in != nil {
-					in.pending = append(in.pending, e.Data...)
+					data := e.Data
+					// a write that is not in append mode lands at the file position: it
+					// overwrites what is there (taken as effective at once) and extends
+					if size := int64(len(in.synced) + len(in.pending)); e.Off >= 0 && e.Off < size {
+						for i := 0; i < len(data) && e.Off+int64(i) < size; i++ {
+							pos := int(e.Off) + i
+							if pos < len(in.synced) {
+								in.synced = append([]byte(nil), in.synced...)
+								in.synced[pos] = data[i]
+							} else {
+								in.pending[pos-len(in.synced)] = data[i]
+							}
+						}
+						if over := size - e.Off; over < int64(len(data)) {
+							data = data[over:]
+						} else {
+							data = nil
+						}
+					}
+					in.pending = append(in.pending, data...)
 				}
 			case e.Op == "fsync":
 				if in := dir[p]; in != nil {
